@@ -9,7 +9,8 @@ pub fn run(rng: &mut Rng, n: usize, out: &mut Out) {
     let g = Gen::new();
     let mut pool: Vec<String> = Vec::new();
     for i in 0..n {
-        let (b, valid) = if rng.chance(1, 5) { (g.malformed(rng), false) } else { (g.valid_position(rng, out), true) };
+        let (b, valid) = if rng.chance(1, 12) { match promoted_army(rng) { Some(b) => { out.count("promoted_army_positions"); (b, true) } None => (g.valid_position(rng, out), true) } }
+                         else if rng.chance(1, 5) { (g.malformed(rng), false) } else { (g.valid_position(rng, out), true) };
         if valid { posgen::describe(&b, out); out.count("valid"); } else { out.count("malformed"); }
         let bt = board_text(&b);
         // re-evaluate an earlier board now and then: same answer regardless of what came in between
@@ -24,6 +25,41 @@ pub fn run(rng: &mut Rng, n: usize, out: &mut Out) {
         if a != "0" && a != "0 0 0" { out.nontrivial(&bt); }
         if i < 3 { out.sample(format!("{} => {}", op, a)); }
         out.op(&op, &a);
+        // magnitude: with at most 16 men a side the score must stay strictly inside the search window (judged by the spec
+        // column against the window constant re-extracted from search.rs)
+        if valid {
+            let first = a.split_whitespace().next().unwrap_or("0").to_string();
+            out.run(&mut st, &format!("eval.judge {} {}", bt, first));
+        }
         if pool.len() < 64 { pool.push(bt); } else { let k = rng.below(64) as usize; pool[k] = bt; }
     }
+}
+
+/// one side has promoted everything: king + up to 15 heavy pieces against a nearly bare king (the largest scores reachable
+/// with 16 men a side); the weak side is to move so that the position is valid even when its king is attacked
+fn promoted_army(rng: &mut Rng) -> Option<crate::board::Board> {
+    use crate::pieces::{Color, Piece};
+    let strong = if rng.chance(1, 2) { Color::White } else { Color::Black };
+    let weak = if strong == Color::White { Color::Black } else { Color::White };
+    let mut occ = [None::<(Color, Piece)>; 64];
+    let sk = rng.below(64) as usize;
+    occ[sk] = Some((strong, Piece::King));
+    let mut wk = rng.below(64) as usize;
+    let mut tries = 0;
+    while wk == sk || ((wk / 8) as i32 - (sk / 8) as i32).abs().max(((wk % 8) as i32 - (sk % 8) as i32).abs()) < 2 { wk = rng.below(64) as usize; tries += 1; if tries > 100 { return None; } }
+    occ[wk] = Some((weak, Piece::King));
+    let n = 9 + rng.below(7) as usize;
+    for _ in 0..n {
+        let sq = rng.below(64) as usize;
+        if occ[sq].is_none() { occ[sq] = Some((strong, *rng.pick(&[Piece::Queen, Piece::Queen, Piece::Queen, Piece::Rook, Piece::Knight, Piece::Bishop]))); }
+    }
+    for _ in 0..rng.below(3) {
+        let sq = 8 + rng.below(48) as usize;
+        if occ[sq].is_none() { occ[sq] = Some((weak, Piece::Pawn)); }
+    }
+    let mut pcs = [0u64; 6];
+    let (mut wbb, mut bbb) = (0u64, 0u64);
+    for sq in 0..64 { if let Some((c, p)) = occ[sq] { pcs[p.index()] |= 1 << sq; if c == Color::White { wbb |= 1 << sq } else { bbb |= 1 << sq } } }
+    let b = board_from_raw(pcs, wbb, bbb, weak, 0, None, 0, 1)?;
+    if crate::refchess::valid(&b) { Some(b) } else { None }
 }
